@@ -36,4 +36,13 @@ def trainAll : List (Nat × Bool) → Option SeedSeq → List (Nat × Option See
       | some s => let (s', child) := spawn s; (n, some child) :: trainAll rest (some s')
     else trainAll rest seed
 
+/-- `Pipeline.train` on the components' states: every trainable component is trained on `d` with the caller's retrain flag and the
+    seed spawned for it (`learn seed d` is what a fresh component learns); other components are passed over -/
+def pipeTrain {δ σ} (learn : Option SeedSeq → δ → σ) : List (Comp σ × Bool) → δ → Bool → Option SeedSeq → List (Comp σ × Bool)
+  | [], _, _, _ => []
+  | (c, false) :: rest, d, r, seed => (c, false) :: pipeTrain learn rest d r seed
+  | (c, true) :: rest, d, r, none => (train (learn none) c d r, true) :: pipeTrain learn rest d r none
+  | (c, true) :: rest, d, r, some s =>
+    (train (learn (some (spawn s).2)) c d r, true) :: pipeTrain learn rest d r (some (spawn s).1)
+
 end LK.Train
